@@ -112,6 +112,8 @@ def run_case(i, seed, tier):
         cfg, ops = c12.build(seed * 1000003 + i, valid_only=True)
         profile = 'hybrid'
     else:
+        if i % 3 == 2:
+            cfg = cfg.with_extra(g.vd_extras(bool(cfg.joliet), cfg.xa))
         h = common.History(cfg, seed * 1000003 + i, profile)
         if i % 7 == 5:
             h.extend(nops // 2)
